@@ -320,6 +320,17 @@ def gen(tier: str, seed: int) -> list[Case]:
         info = {"shapes": ["general-package"], "modules": [m.qname for m in pkg.modules][:6]}
         cases.append(Case(cid=f"c09-g{j}-off", files=files, opts=[], meta={"pair": f"g{j}", "nc": False, **info}, reach=REACH))
         cases.append(Case(cid=f"c09-g{j}-on", files=files, opts=["-nc"], meta={"pair": f"g{j}", "nc": True, **info}, reach=REACH))
+    # ... and packages from C01's library of declaration forms (every form, docstrings of every style)
+    from . import c01
+
+    for j in range(2 if tier == "quick" else 40):
+        # left out: a generic Protocol (its type variable is used without being declared anywhere, so there is no
+        # declaration that could carry the Python name) and types whose class name changes under conversion (recorded C11 finding)
+        files = c01.kitchen_sink(rng_for(seed, PID, "kitchen-sink", j), gated | {"class:protocol", "class:foreign-private-base"}, 250 + j)
+        style = [["--docstyle", "numpydoc"], [], ["--docstyle", "google"]][j % 3]
+        info = {"shapes": ["form-library"], "modules": sorted(k for k in files if k.endswith(".py"))[:6]}
+        cases.append(Case(cid=f"c09-k{j}-off", files=files, opts=list(style), meta={"pair": f"k{j}", "nc": False, **info}, reach=REACH))
+        cases.append(Case(cid=f"c09-k{j}-on", files=files, opts=[*style, "-nc"], meta={"pair": f"k{j}", "nc": True, **info}, reach=REACH))
     return cases
 
 
